@@ -55,6 +55,19 @@ def gen_cases(rng, tier):
     for i in range(n // 3):
         w, h, np_ = rng.randint(1, 6), rng.randint(1, 6), rng.randint(1, 8)
         add([8, w, h, np_] + [rng.randint(0, 255) for _ in range(3 * np_)] + [rng.randrange(np_) for _ in range(w * h)])
+    # grey / RGB files with a tRNS colour key (the decoder dependency expands the key into an alpha channel)
+    for i in range(n // 3):
+        ct = rng.choice([0, 2])
+        ch = 1 if ct == 0 else 3
+        w, h = rng.randint(1, 6), rng.randint(1, 5)
+        key = [rng.choice([0, 255, 7, 200]) for _ in range(ch)]
+        data = []
+        for _ in range(w * h):
+            data += key if rng.random() < 0.4 else [rng.choice([0, 255, 7, 200, rng.randint(0, 255)]) for _ in range(ch)]
+        add([9, ct, w, h] + key + data)
+    # an APNG whose first frame (fcTL before IDAT) is smaller than the canvas: must be Err or a pixmap, never a panic
+    for i in range(12 if tier == "quick" else 100):
+        add([5] + apng_small_first_frame(rng))
     # malformed streams: random bytes, and a valid PNG truncated / bit-flipped
     valid = png_bytes()
     for i in range(n):
@@ -82,6 +95,21 @@ def png_bytes():
     raw = b"".join(b"\x00" + bytes([10 * x + y, 20, 30, 200]) * 1 for y in range(h) for x in range(1)) 
     raw = b"".join(b"\x00" + b"".join(bytes([10 * x + y, 20, 30, 200]) for x in range(w)) for y in range(h))
     data = b"\x89PNG\r\n\x1a\n" + chunk(b"IHDR", struct.pack(">IIBBBBB", w, h, 8, 6, 0, 0, 0)) + chunk(b"IDAT", zlib.compress(raw)) + chunk(b"IEND", b"")
+    return list(data)
+
+
+def apng_small_first_frame(rng):
+    import zlib, struct
+    def chunk(t, d):
+        return struct.pack(">I", len(d)) + t + d + struct.pack(">I", zlib.crc32(t + d) & 0xffffffff)
+    ct = rng.choice([0, 2, 4, 6])
+    ch = {0: 1, 2: 3, 4: 2, 6: 4}[ct]
+    W, H = rng.randint(2, 6), rng.randint(2, 6)
+    fw, fh = rng.randint(1, W - 1), rng.randint(1, H)
+    raw = b"".join(b"\x00" + bytes(rng.randint(0, 255) for _ in range(fw * ch)) for _ in range(fh))
+    fctl = struct.pack(">IIIIIHHBB", 0, fw, fh, 0, 0, 1, 10, 0, 0)
+    data = (b"\x89PNG\r\n\x1a\n" + chunk(b"IHDR", struct.pack(">IIBBBBB", W, H, 8, ct, 0, 0, 0)) + chunk(b"acTL", struct.pack(">II", 1, 0)) +
+            chunk(b"fcTL", fctl) + chunk(b"IDAT", zlib.compress(raw)) + chunk(b"IEND", b""))
     return list(data)
 
 
@@ -133,6 +161,25 @@ def oracle(suite, args, out):
         if o != exp:
             j = [i for i in range(min(len(o), len(exp))) if o[i] != exp[i]]
             return "decoded pixels differ from round(c*a/255) at byte %s: got %s expected %s" % (j[:1], o[j[0] // 4 * 4:j[0] // 4 * 4 + 4] if j else o[:4], exp[j[0] // 4 * 4:j[0] // 4 * 4 + 4] if j else exp[:4])
+        return None
+    if k == 9:
+        if o == [-1]:
+            return "decoding a valid grey / RGB PNG with a tRNS colour key failed"
+        if o == [-3]:
+            return None
+        ct = args[1]; ch = 1 if ct == 0 else 3
+        key = args[4:4 + ch]; vals = args[4 + ch:]
+        exp = []
+        for i in range(0, len(vals), ch):
+            s_ = vals[i:i + ch]
+            if s_ == key:
+                exp += [0, 0, 0, 0]
+            else:
+                exp += ([s_[0]] * 3 if ct == 0 else s_) + [255]
+        if o != exp:
+            j = [i for i in range(min(len(o), len(exp))) if o[i] != exp[i]]
+            return "tRNS colour key: decoded pixels differ from the premultiplied expectation at byte %s: got %s expected %s" % (
+                j[:1], o[j[0] // 4 * 4:j[0] // 4 * 4 + 4] if j else o[:4], exp[j[0] // 4 * 4:j[0] // 4 * 4 + 4] if j else exp[:4])
         return None
     if k == 8:
         if o == [-1]:
